@@ -40,14 +40,24 @@ def docPairs : List (Field × SgField) :=
 /-- digests of the documented, normalised bodies of the entry points (written down from the reviewed
 source; `Gen.C04.bodyDigests` is what the source says today, `Props/C04.bodies_documented` ties them) -/
 def docBodyDigests : List (String × String) :=
-  [("StopgapMotl.__init__", "d7fb346f05eaacb5"),
-   ("StopgapMotl.read_in", "e08d7b6f24613301"),
+  [("StopgapMotl.__init__", "6cd60100075c261e"),
+   ("StopgapMotl.read_in", "977330a5ab207af8"),
    ("StopgapMotl.convert_to_motl", "41bddc0a26f2ac2c"),
-   ("StopgapMotl.convert_to_sg_motl", "35c4d762c513372b"),
+   ("StopgapMotl.convert_to_sg_motl", "bd1b72a459e815c1"),
    ("StopgapMotl.sg_df_reset_index", "a328d3752cd8e76f"),
    ("StopgapMotl.write_out", "6150d53d35833acb"),
    ("stopgap2emmotl", "b93283c9d4d67905"),
    ("emmotl2stopgap", "43955f188247229d")]
+
+/-- digest of the body of one entry point as the source has it today (`""` when it is not listed) -/
+def bodyDigest (name : String) : String := (Gen.C04.bodyDigests.lookup name).getD ""
+
+/-- the documented "stopgap" branches of the wrappers (normalised statements, parameters `a0, a1`):
+`Motl.write_out(output_path, motl_type)` runs `StopgapMotl(self.df).write_out(output_path)` — no
+keyword is passed, so both `update_coord` and `reset_index` are at their defaults — and
+`Motl.load(input_motl, motl_type)` returns `StopgapMotl(input_motl)` -/
+def docMotlWriteOutStopgap : List String := ["StopgapMotl(self.df).write_out(a0)"]
+def docMotlLoadStopgap : List String := ["returnStopgapMotl(a0)"]
 
 /-- the 14 shared fields on the cryoCAT side -/
 def sharedFields : List Field := docPairs.map Prod.fst
@@ -201,6 +211,37 @@ first when asked, then `write_out(path, update_coord=False, reset_index=reset_in
 def em2sgOpt [Add α] [Sub α] (ops : NumOps α) (round : α → α) (update reset : Option Bool)
     (motl : List (Particle α)) : Option (SgTable α) :=
   writeOutTable ops round (update.getD Gen.C04.em2sgUpdateDefault) (reset.getD Gen.C04.em2sgResetDefault) motl
+
+/-- `Motl(df).write_out(path, "stopgap")`, the wrapper `sta.py` / `tmana.py` call: it is
+`StopgapMotl(self.df).write_out(path)` (tied to the source by `wrappers_documented`), i.e. `write_out`
+with BOTH keywords omitted -/
+def motlWriteOut [Add α] [Sub α] (ops : NumOps α) (round : α → α) (motl : List (Particle α)) : Option (SgTable α) :=
+  writeOutOpt ops round none none motl
+
+/-! ### rounding half away from zero on exact values (`Decimal(v).to_integral_value(ROUND_HALF_UP)`)
+
+`Motl.update_coordinates` hands the float64 sum `x + shift_x` to `decimal.Decimal`, which holds its
+exact value, and rounds that exactly; over `Rat` (every finite float64 is a rational) the rule is: -/
+
+/-- nearest integer, exact halves away from zero -/
+def ratRoundAway (q : Rat) : Rat :=
+  if q < 0 then -(((-q + 1 / 2).floor : Int) : Rat) else (((q + 1 / 2).floor : Int) : Rat)
+
+/-- the rational number an IEEE-754 binary64 bit pattern denotes, exactly (`none` for NaN, ±inf): what
+`decimal.Decimal(x)` holds for a float `x`. The driver uses it to compare the hardware `Float.round`
+it executes with the proved exact rule `ratRoundAway` on every re-centred coordinate. -/
+def decodeRat (b : Nat) : Option Rat :=
+  let sign := b / 2 ^ 63 % 2
+  let e := b / 2 ^ 52 % 2048
+  let m := b % 2 ^ 52
+  if e = 2047 then none
+  else
+    let sig := if e = 0 then m else 2 ^ 52 + m
+    let ex := if e = 0 then 1 else e              -- value = sig · 2^(ex − 1075)
+    let mag : Rat :=
+      if 1075 ≤ ex then ((sig * 2 ^ (ex - 1075) : Nat) : Rat)
+      else ((sig : Nat) : Rat) / ((2 ^ (1075 - ex) : Nat) : Rat)
+    some (if sign = 1 then -mag else mag)
 
 /-! ### subtomogram numbers as integers: exact decoding of IEEE binary64 bit patterns
 
